@@ -110,7 +110,8 @@ def run_check(sid, sdir, prop, tier, budget):
 
 def main(argv):
     args = argv[1:]
-    do_verify = '--verify' in args
+    do_verify = '--verify' in args or '--verify-only' in args
+    verify_only = '--verify-only' in args
     tier = 'quick'
     budget = None
     sel = []
@@ -123,7 +124,7 @@ def main(argv):
         elif a == '--budget':
             budget = args[i + 1]
             i += 1
-        elif a != '--verify':
+        elif a not in ('--verify', '--verify-only'):
             sel.append(a)
         i += 1
     res = []
@@ -138,6 +139,9 @@ def main(argv):
             continue
         if do_verify and not verify(sid, sdir):
             res.append((sid, 'INADMISSIBLE'))
+            continue
+        if verify_only:
+            res.append((sid, 'CAUGHT'))       # (admissibility only; not run against the checks)
             continue
         verdicts = []
         for pid in meta.get('checks', [prop]):
